@@ -45,7 +45,8 @@ Txt(str) == CASE str = "zz" -> <<122, 122>> [] str = "x" -> <<120>> [] str = "b"
 IdxSchema == [ core  |-> <<CVar("Major"), CVar("Minor"), CUInt(7), CVar("Patch"), CStr(Txt("x"))>>,
                extra |-> <<CVar("Epoch"), CVar("PreRelease"), CVar("Post"), CTs("YYYY"), CVar("Dev")>>,
                build |-> <<CVar("BumpedBranch"), CStr(Txt("b")), CUInt(3), CCustom(Txt("k"))>> ]
-Vals == { [t |-> "num", n |-> 9, s |-> Txt("9")], [t |-> "text", n |-> 0, s |-> Txt("zz")], [t |-> "neg", n |-> 0, s |-> Txt("-4")] }
+Vals == { [t |-> "num", n |-> 9, s |-> Txt("9")], [t |-> "num", n |-> 0, s |-> <<48>>], [t |-> "text", n |-> 0, s |-> Txt("zz")],
+          [t |-> "neg", n |-> 0, s |-> Txt("-4")] }
 OneOps == { [sec |-> sc, kind |-> kd, idx |-> ix, hasval |-> TRUE, val |-> vl]
               : sc \in {"core", "extra", "build"}, kd \in {"ov", "bump"}, ix \in {0, 1, 2, 3, 4, 5, -1, -2, -6}, vl \in Vals }
            \cup { [sec |-> sc, kind |-> kd, idx |-> ix, hasval |-> FALSE, val |-> NoVal]
